@@ -328,7 +328,8 @@ func (w *world) signProposal(ph *tmconsensus.ProposedHeader, pk gcrypto.PubKey) 
 // noteHonestPrecommit advances the honest network position when generated honest precommits
 // reach a majority for block A (commit) or nil (next round).
 func (w *world) noteHonestPrecommit(h uint64, r uint32, target string, idx int) {
-	if idx == byzIdx || h != w.H || r != w.R {
+	// The Byzantine validator's valid precommits count too: a certificate is a certificate.
+	if h != w.H || r != w.R {
 		return
 	}
 	k := vkey{h, r, target}
